@@ -339,6 +339,13 @@ Theorem C07_movingWindow_any_order_refuted :
   exists l, m_movingWindow (fun x => Ok x) l <> doc_windows (fun x => Ok x) l.
 Proof. exact movingWindow_decreasing_refuted. Qed.
 
+(* multiUse: the implementation model (every function gets the list, results evaluated deeply, returned
+   under the functions' keys) = the documented model "the map over fs of f(list)", for every list and
+   every non-empty map of functions of the callback language *)
+Theorem C07_multiUse_spec : forall l fs, fs <> [] ->
+  bind (run_list (of_list l) M_multiUse [AFM fs]) force = spec_list l M_multiUse [AFM fs].
+Proof. exact multiUse_spec. Qed.
+
 (* non-vacuity: a pipeline with a failing callback behind a truncating stage, and the repaired corners *)
 Example C07_nonvacuous_lazy :
   collect (s_top 1 (s_map (fun x => match x with VInt 1 => Ok x | _ => Err None end) (of_list [VInt 1; VInt 2])))
@@ -381,3 +388,4 @@ Print Assumptions C07_map_specs.
 Print Assumptions C07_movingWindow_nondecreasing_partial.
 Print Assumptions C07_movingWindow_int_keys.
 Print Assumptions C07_movingWindow_any_order_refuted.
+Print Assumptions C07_multiUse_spec.
